@@ -9,8 +9,8 @@ Open Scope R_scope.
 
 (* whenever the model returns a time, the TRUE summed activity sum_i A_i(0) 2^(-t/T_i) is within 0.1%
    of the target there, whatever the smallest requested rest time To was *)
-Theorem C15_returned_time_accurate : forall rem To target t, 0 < target ->
-  decay_time_core R numR (data_at rem To) To target = Ok (Ret t) ->
+Theorem C15_returned_time_accurate : forall early_vs_target df_rest_factor rem To target t, 0 < target ->
+  decay_time_core R numR early_vs_target df_rest_factor (data_at rem To) To target = Ok (Ret t) ->
   Rabs (true_A rem t - target) <= / 1000 * target.
 Proof. exact returned_time_accurate. Qed.
 Print Assumptions C15_returned_time_accurate.
@@ -21,7 +21,8 @@ Theorem C15_f_is_true_activity : forall rem To target t,
 Proof. exact f_is_true_activity. Qed.
 Print Assumptions C15_f_is_true_activity.
 
-(* the model computes f with fR (when no exp overflows) *)
+(* the model computes f with fR (when no exp overflows); decay_time_core's two boolean parameters select
+   the form of the early-exit test and of df that the source has (Gen/ActivationDat.v) *)
 Theorem C15_model_f : forall data To target t v, f R numR data To target t = Ok v -> v = fR data To target t.
 Proof. exact f_R. Qed.
 Print Assumptions C15_model_f.
@@ -29,22 +30,30 @@ Print Assumptions C15_model_f.
 (* REFUTED at full strength: "returns 0 exactly when the activity at removal is at or below the target" *)
 Theorem C15_zero_iff_already_below_refuted :
   exists rem To target, physical_rem rem /\ 0 < target /\ target < true_A rem 0 /\
-    decay_time_core R numR (data_at rem To) To target = Ok RetZero.
+    forall dff, decay_time_core R numR true dff (data_at rem To) To target = Ok RetZero.
 Proof. exact zero_iff_already_below_refuted. Qed.
 Print Assumptions C15_zero_iff_already_below_refuted.
 
 (* what does hold: 0 is returned exactly when A(0) < 2 target (the test is f(0) < target with f = A - target) *)
-Theorem C15_zero_iff_below_twice_partial : forall data To target f0,
+Theorem C15_zero_iff_below_twice_partial : forall dff data To target f0,
   f R numR data To target 0 = Ok f0 ->
-  (decay_time_core R numR data To target = Ok RetZero <-> sumR data To 0 < 2 * target).
+  (decay_time_core R numR true dff data To target = Ok RetZero <-> sumR data To 0 < 2 * target).
 Proof. exact zero_iff_below_twice. Qed.
 Print Assumptions C15_zero_iff_below_twice_partial.
 
-Theorem C15_already_below_returns_zero_partial : forall rem To target f0, 0 < target ->
+Theorem C15_already_below_returns_zero_partial : forall dff rem To target f0, 0 < target ->
   f R numR (data_at rem To) To target 0 = Ok f0 ->
-  true_A rem 0 <= target -> decay_time_core R numR (data_at rem To) To target = Ok RetZero.
+  true_A rem 0 <= target -> decay_time_core R numR true dff (data_at rem To) To target = Ok RetZero.
 Proof. exact already_below_returns_zero. Qed.
 Print Assumptions C15_already_below_returns_zero_partial.
+
+(* the model with the test written "f(0) <= 0" (what a repaired decay_time would be; the translator
+   selects this variant when the source reads so) returns 0 exactly when A(0) <= target *)
+Theorem C15_zero_iff_already_below_repaired : forall dff data To target f0,
+  f R numR data To target 0 = Ok f0 ->
+  (decay_time_core R numR false dff data To target = Ok RetZero <-> sumR data To 0 <= target).
+Proof. exact zero_iff_already_below_repaired. Qed.
+Print Assumptions C15_zero_iff_already_below_repaired.
 
 (* REFUTED at full strength: "df is the derivative of f" *)
 Theorem C15_df_is_derivative_refuted :
@@ -61,6 +70,17 @@ Proof.
                                       (conj (dfR_factor data To t) (df_is_derivative_partial data target t))).
 Qed.
 Print Assumptions C15_df_is_derivative_partial.
+
+(* what the model's df computes, and that the variant "-sum(La*Ia*exp(..))" is the derivative *)
+Theorem C15_model_df : forall dff data To t v, df R numR dff data To t = Ok v ->
+  v = if dff then dfR data To t else derR data To t.
+Proof. exact model_df. Qed.
+Print Assumptions C15_model_df.
+
+Theorem C15_df_is_derivative_repaired : forall data To target t v, df R numR false data To t = Ok v ->
+  is_derive (fR data To target) t v.
+Proof. exact df_is_derivative_repaired. Qed.
+Print Assumptions C15_df_is_derivative_repaired.
 
 (* the time the property asks for is unique and does not depend on the rest-time list *)
 Theorem C15_spec_root_unique : forall rem target t1 t2, physical_rem rem -> 0 < target ->
